@@ -599,6 +599,13 @@ pub fn encode_fixed_size_frame(
         ..(1usize << 31)
     )?;
 
+    // A frame holds at least one sample; an empty (e.g. never filled) buffer
+    // cannot be encoded.
+    verify_range!(
+        "encode_fixed_size_frame (framebuf.filled_size)",
+        framebuf.filled_size(),
+        1..
+    )?;
     framebuf.verify_samples(stream_info.bits_per_sample())?;
     // NOTE: From expected use cases, wrapping `stream_info` is not practical
     // since it is mutable everywhere. On the other hand, verifying it here is
